@@ -128,10 +128,10 @@ func checkC16(c *km.Ctx) {
 	r.NotDecided = []string{"schedules themselves and the race detector's dynamic view", "several servers sharing one database"}
 	r.Assume = []string{"sync.Mutex provides mutual exclusion", "go/types + go/ssa model the source faithfully", "a goroutine started after a channel receive observes writes that happened before the matching send"}
 
-	r.Rule("R-C16-1", "every access to a guarded map field holds its mutex (locally or at every caller), outside the listed single-threaded initialisation", 20)
+	r.Rule("R-C16-1", "every access to a guarded map field holds its mutex (locally or at every caller), outside the listed single-threaded initialisation", 14)
 	r.Rule("R-C16-2", "signer family: writes under the state mutex or at start-up; admin-port reads under the mutex or after the locked sealed test; the service listener starts only after the receive from SignerIsReady", 6)
-	r.Rule("R-C16-3", "check-then-consume of one-time challenge records is one critical section (lookup and delete under one uninterrupted hold of the mutex)", 2)
-	r.Rule("R-C16-4", "every profile load-modify-save is serialised (per-user/global profile lock, or one database transaction that also read it)", 10)
+	r.Rule("R-C16-3", "check-then-consume of one-time challenge records is one critical section (lookup and delete under one uninterrupted hold of the mutex)", 1)
+	r.Rule("R-C16-4", "every profile load-modify-save is serialised (per-user/global profile lock, or one database transaction that also read it)", 5)
 
 	// ---------- R-C16-1
 	var fns []*ssa.Function
